@@ -46,7 +46,14 @@ class Peer(object):
     def decompress(self, payload):
         if self._do is None or self.client_nct:
             self._do = zlib.decompressobj(-self.cwb)
-        return self._do.decompress(payload + TAIL)
+        # a peer that really has only the negotiated 2^cwb window: zlib resolves back-references from its output buffer when
+        # that is large enough, so the output is taken in small pieces and every distance has to be served by the window
+        out = []
+        data = payload + TAIL
+        while data:
+            out.append(self._do.decompress(data, 64))
+            data = self._do.unconsumed_tail
+        return b"".join(out)
 
 
 def client_reference_compressor(cwb, client_nct):
